@@ -64,13 +64,23 @@ pub fn comment_key(root: &SyntaxNode, comment_start: usize) -> Option<String> {
         }
         let parent = anc.last().copied();
         let grand = if anc.len() >= 2 { Some(anc[anc.len() - 2]) } else { None };
-        let shape = if n.kind() == K::LineComment {
-            "L"
-        } else if n.text().contains('\n') {
-            "M"
+        // shape: L line, B one-line block, M multi-line plain, MB multi-line bullet style; +w when a continuation
+        // line is empty or blank-only; +d when the comment is a `@typstyle off` directive (those steer the printer)
+        let t = n.text();
+        let mut shape = if n.kind() == K::LineComment {
+            "L".to_string()
+        } else if t.contains('\n') {
+            let bullet = t.lines().skip(1).all(|l| l.trim_start().starts_with('*'));
+            if bullet { "MB".to_string() } else { "M".to_string() }
         } else {
-            "B"
+            "B".to_string()
         };
+        if t.lines().skip(1).any(|l| l.trim().is_empty()) {
+            shape.push('w');
+        }
+        if t.contains("@typstyle off") {
+            shape.push('d');
+        }
         let (mut prev, mut next) = ("^".to_string(), "$".to_string());
         if let Some(p) = parent {
             let kids: Vec<&SyntaxNode> = p.children().collect();
